@@ -23,6 +23,7 @@ import MW.Lemmas.LedgerAbs2
 import MW.Lemmas.LedgerObsEx
 import MW.Lemmas.LedgerD2Ex
 import MW.Lemmas.LedgerFUEx
+import MW.Lemmas.TxmgrCodecRec
 namespace MW.Props.C01
 open MW MW.Model.Ledger MW.Spec.Chain MW.Spec.Books MW.Lemmas.Ledger
 
@@ -382,5 +383,85 @@ example : AMap.get (runW fxEnv hxW0 fxEvs).s.addrs ("w1", false, "a2") = some 0 
     AMap.get (runW fxEnv hxW0 (fxEvs.take 4)).s.addrs ("w1", false, "a2") = some 2 := by decide
 
 end addrs
+-- ------------------------------------------------------------------ byte level (Round 4): the tuple-keyed buckets of the model
+-- versus the byte keys of the code.  Codecs: MW.Model.TxmgrCodec, DEFINED from the regenerated tables MW.Gen.Codec.
+section Codec
+open MW.Model.TxmgrCodec MW.TxmgrCodec MW.Gen.Codec
+
+/-- the regenerated writer tables tile their buffers and the reader tables look exactly where the writers wrote
+    (re-checked by `decide` against the tables extracted from the Go source on every run) -/
+theorem codec_tables_wf : ([wCanonicalOutPoint, wCanonicalUnspentKey, wExistsRawUnspentCredKey, wKeyCredit, wValueUnspentCredit,
+    wValueUnminedCredit, wCreditPrefixHeight, wPutMinedBalance, wKeyDebit, wPutDebit, wValueUnspent, wKeyAddressRecord,
+    wValueAddressRecord, wKeyGameHistory, wKeyUnminedGameHistory, wValueUnmined, wKeyTxRecord, wPutTxRecord,
+    wTxRecordPrefixHeight, wTxRecordPrefixHeight2, wKeyBlockRecord, wValueBlockRecord, wSyncedKey, wSyncedValue,
+    wFetchSyncedKey, wSyncedToValue, wResetSyncedKey, wWalletStatus, wCreditHash, wDebitHash].all WFRec) = true := writers_wf
+
+/-- GENERIC round trip: for every well-formed table `W`, every tuple within the widths and every reader table `R` that
+    agrees with `W`, reading `R`'s spans from `encode W vals` yields, span by span, the value written there -/
+theorem codec_decode_encode (W R : Rec) (vals : List Val) (hw : WFRec W = true) (hf : Fits W.spans vals = true)
+    (ha : Agree W R = true) :
+    decodeBy R (encode W vals) = some (R.spans.map (fun r => (pick W.spans vals r).getD (.n 0))) :=
+  decodeBy_encode W R vals hw hf ha
+
+/-- GENERIC injectivity: distinct well-formed tuples have distinct byte images (justifies tuple-keyed maps) -/
+theorem codec_encode_inj (L : Rec) (vals vals' : List Val) (hw : WFRec L = true) (hf : Fits L.spans vals = true)
+    (hf' : Fits L.spans vals' = true) (he : encode L vals = encode L vals') : vals = vals' :=
+  encode_inj L vals vals' hw hf hf' he
+
+/-- the overflow case: an integer that does not fit its width does not survive (the width predicate is necessary) -/
+theorem codec_overflow_breaks (w n : Nat) (h : 256 ^ w ≤ n) : beNat (be w n) ≠ n := beNat_be_of_ge w n h
+
+/-- credits / debits: key round trip and injectivity (bucket `c`, `d`: tx hash ‖ height ‖ block hash ‖ index) -/
+theorem codec_credit_key_roundtrip (k : CredKeyB) (h : k.WF = true) : readRawCreditKey (keyCredit k) = some k :=
+  readRawCreditKey_keyCredit k h
+theorem codec_credit_key_inj (k k' : CredKeyB) (h : k.WF = true) (h' : k'.WF = true) (he : keyCredit k = keyCredit k') :
+    k = k' := keyCredit_inj k k' h h' he
+/-- unspent index (bucket `u`: wallet id ‖ tx hash ‖ index ↦ height ‖ block hash) -/
+theorem codec_unspent_key_inj (u u' : UnspentKeyB) (h : u.WF = true) (h' : u'.WF = true)
+    (he : canonicalUnspentKey u = canonicalUnspentKey u') : u = u' := canonicalUnspentKey_inj u u' h h' he
+theorem codec_unspent_key_roundtrip (u : UnspentKeyB) (h : u.WF = true) :
+    readCanonicalUnspentKey (canonicalUnspentKey u) = some ⟨u.hash, u.index⟩ := readCanonicalUnspentKey_canonicalUnspentKey u h
+theorem codec_unspent_value_roundtrip (b : BlockMetaB) (h : b.WF = true) : readBlockOfUnspent (valueUnspent b) = some b :=
+  readBlockOfUnspent_valueUnspent b h
+/-- tx records (bucket `t`) and block records' key (bucket `b`) -/
+theorem codec_txrec_key_inj (k k' : TxRecKeyB) (h : k.WF = true) (h' : k'.WF = true) (he : keyTxRecord k = keyTxRecord k') :
+    k = k' := keyTxRecord_inj k k' h h' he
+theorem codec_txrec_key_roundtrip (k : TxRecKeyB) (h : k.WF = true) : readTxRecordKey (keyTxRecord k) = some k.block :=
+  readTxRecordKey_keyTxRecord k h
+theorem codec_txrec_value_roundtrip (l : TxLocB) (h : l.WF = true) : readTxRecordLoc (valueTxRecord l) = some l :=
+  readTxRecordLoc_valueTxRecord l h
+theorem codec_block_key_roundtrip (ht : Nat) (h : Fits wKeyBlockRecord.spans [.n ht] = true) :
+    readBlockRecordKey (keyBlockRecord ht) = some ht := readBlockRecordKey_keyBlockRecord ht h
+/-- synced-to table (bucket `sync`) -/
+theorem codec_synced_roundtrip (hash : Bytes) (t : Nat) (h : Fits wSyncedValue.spans [.b hash, .n t] = true) :
+    readSyncedValue (valueSynced hash t) = some (hash, t) := readSyncedValue_valueSynced hash t h
+theorem codec_syncedto_roundtrip (ht : Nat) (h : Fits wSyncedToValue.spans [.n ht] = true) :
+    readSyncedTo (valueSyncedTo ht) = some ht := readSyncedTo_valueSyncedTo ht h
+/-- address records (bucket `a`) -/
+theorem codec_address_key_inj (a a' : AddrKeyB) (h : a.WF = true) (h' : a'.WF = true)
+    (he : encode wKeyAddressRecord a.vals = encode wKeyAddressRecord a'.vals) : a = a' := keyAddressRecord_inj a a' h h' he
+theorem codec_address_value_roundtrip (ht : Nat) (h : Fits wValueAddressRecord.spans [.n ht] = true) :
+    readAddressHeight (valueAddressRecord ht) = some ht := readAddressHeight_valueAddressRecord ht h
+
+/-- PREFIX-SCAN EXACTNESS: the scans the ledger code iterates with select exactly the keys whose leading tuple
+    components equal the prefix's -/
+theorem codec_scan_credits_by_tx (h : Bytes) (k : CredKeyB) (hh : h.length = 32) (hk : k.WF = true) :
+    h.isPrefixOf (keyCredit k) = true ↔ k.hash = h := scan_credits_by_tx h k hh hk
+theorem codec_scan_credits_by_tx_height (h : Bytes) (ht : Nat) (k : CredKeyB) (hh : h.length = 32) (hht : ht < 256 ^ 8)
+    (hk : k.WF = true) :
+    (creditPrefixHeight h ht).isPrefixOf (keyCredit k) = true ↔ k.hash = h ∧ k.block.height = ht :=
+  scan_credits_by_tx_height h ht k hh hht hk
+theorem codec_scan_txrec_by_tx_height (h : Bytes) (ht : Nat) (k : TxRecKeyB) (hh : h.length = 32) (hht : ht < 256 ^ 8)
+    (hk : k.WF = true) :
+    (txRecordPrefixHeight h ht).isPrefixOf (keyTxRecord k) = true ↔ k.hash = h ∧ k.block.height = ht :=
+  scan_txrec_by_tx_height h ht k hh hht hk
+
+/-- the hypotheses are satisfiable by non-trivial records: maximal height and index, 0xff hashes -/
+example : (⟨List.replicate 32 0xff, ⟨2 ^ 64 - 1, List.replicate 32 0xff⟩, 2 ^ 32 - 1⟩ : CredKeyB).WF = true := by decide
+example : (⟨List.replicate 42 0x61, List.replicate 32 0, 7⟩ : UnspentKeyB).WF = true := by decide
+example : (⟨List.replicate 32 1, ⟨5, List.replicate 32 2⟩⟩ : TxRecKeyB).WF = true ∧ (⟨1, 2, 3, 4, 5⟩ : TxLocB).WF = true := by decide
+/-- … and an over-wide field is rejected by the predicate (height 2^64) -/
+example : (⟨List.replicate 32 0, ⟨2 ^ 64, List.replicate 32 0⟩, 0⟩ : CredKeyB).WF = false := by decide
+end Codec
 
 end MW.Props.C01
